@@ -178,6 +178,66 @@ fn enumerate(maxlen: usize, shard: usize, nshards: usize, out: &mut impl Write) 
     }
 }
 
+/// kinds used by the `kinds` mode: arbitrary token-kind sequences (also ones the tokenizer never produces) fed straight into
+/// the public `preparse` / `parse_cst`
+pub const KIND_ALPHABET: [parser::TokenKind; 7] = [
+    parser::TokenKind::Whitespace,
+    parser::TokenKind::LineBreak,
+    parser::TokenKind::SingleLineComment,
+    parser::TokenKind::Ident,
+    parser::TokenKind::ParenEnd,
+    parser::TokenKind::Error,
+    parser::TokenKind::Eof,
+];
+
+/// Output line: `K \t - \t tokens \t token_indices \t leading \t trailing \t leaves \t flags` (tokens have width 1, contiguous)
+pub fn run_kinds(kinds: &[parser::TokenKind]) -> String {
+    let tokens: Vec<Token> = kinds.iter().enumerate().map(|(i, &k)| Token::new(k, i, 1)).collect();
+    let toks = tokens.clone();
+    let r = std::panic::catch_unwind(move || {
+        let pre = parser::preparse(&toks);
+        let idx = show_nats(&pre.token_indices);
+        let ld = show_map(&pre.leading_trivia_map);
+        let tr = show_map(&pre.trailing_trivia_map);
+        (pre, idx, ld, tr)
+    });
+    let t = show_tokens(&tokens);
+    let (pre, idx, ld, tr) = match r {
+        Ok(x) => x,
+        Err(_) => return format!("K\t-\t{t}\tPANIC\tPANIC\tPANIC\tPANIC\tpanic=preparse"),
+    };
+    let toks2 = tokens.clone();
+    let r2 = std::panic::catch_unwind(std::panic::AssertUnwindSafe(|| {
+        let (root, arena, _out, errors) = parser::parse_cst(toks2, &pre);
+        let mut lv = vec![];
+        leaves(&arena, root, &mut lv);
+        if arena.kind(root) != Some(SyntaxKind::Program) {
+            ("BADROOT".to_string(), errors.len())
+        } else {
+            (show_nats(&lv.iter().map(|x| x.0).collect::<Vec<_>>()), errors.len())
+        }
+    }));
+    let (lv, flags) = match r2 {
+        Ok((s, n)) => (s, format!("errs={n}")),
+        Err(_) => ("PANIC".to_string(), "panic=parse_cst".to_string()),
+    };
+    format!("K\t-\t{t}\t{idx}\t{ld}\t{tr}\t{lv}\t{flags}")
+}
+
+fn enumerate_kinds(maxlen: usize, out: &mut impl Write) {
+    for len in 0..=maxlen {
+        let total = KIND_ALPHABET.len().pow(len as u32);
+        for mut code in 0..total {
+            let mut ks = Vec::with_capacity(len);
+            for _ in 0..len {
+                ks.push(KIND_ALPHABET[code % KIND_ALPHABET.len()]);
+                code /= KIND_ALPHABET.len();
+            }
+            writeln!(out, "{}", run_kinds(&ks)).unwrap();
+        }
+    }
+}
+
 fn mmm_files() -> Vec<std::path::PathBuf> {
     let repo = std::env::var("VERIF_REPO").unwrap_or("/repo".into());
     let mut out = vec![];
@@ -302,6 +362,10 @@ fn main() {
                 writeln!(out, "{}", run_case(&s)).unwrap();
             }
         }
+        Some("kinds") => {
+            let maxlen: usize = args[1].parse().unwrap();
+            enumerate_kinds(maxlen, &mut out);
+        }
         Some("files") => {
             for p in mmm_files() {
                 if let Ok(s) = std::fs::read_to_string(&p) {
@@ -314,6 +378,21 @@ fn main() {
             let stdin = std::io::stdin();
             for line in stdin.lock().lines() {
                 let line = line.unwrap();
+                if let Some(rest) = line.strip_prefix("K\t") {
+                    // replay of a `kinds` case: comma separated kind names (optionally `Kind:start:len`)
+                    let ks: Vec<parser::TokenKind> = rest
+                        .split('\t')
+                        .find(|f| *f != "-")
+                        .unwrap_or("")
+                        .split(',')
+                        .filter_map(|n| {
+                            let n = n.split(':').next().unwrap_or("");
+                            KIND_ALPHABET.iter().copied().find(|k| format!("{k:?}") == n)
+                        })
+                        .collect();
+                    writeln!(out, "{}", run_kinds(&ks)).unwrap();
+                    continue;
+                }
                 let h = line.split('\t').next().unwrap_or("").trim();
                 if h.is_empty() || h.starts_with('#') {
                     continue;
@@ -325,7 +404,7 @@ fn main() {
             }
         }
         _ => {
-            eprintln!("usage: c13 enum <maxlen> [shard nshards] | rand <seed> <n> <maxparts> | files | lines");
+            eprintln!("usage: c13 enum <maxlen> [shard nshards] | kinds <maxlen> | rand <seed> <n> <maxparts> | files | lines");
             std::process::exit(2);
         }
     }
